@@ -13,7 +13,7 @@ RULE = ('all 366 (month, day) x layouts {Month d, m/d, d Month} and the 7 weekda
         'with 3 references; thorough: every month-day with 12 references). non-trivial = one entity with two values; distinct = distinct '
         '(query, reference). 29 February is additionally asked against every reference year 1950..2090; weekday names and "d <month name>" forms of es, fr, de, it, nl, pt, zh against boundary and seeded references.')
 EXHAUSTIVE = False
-JOB_TIMEOUT = 1500
+JOB_TIMEOUT = 5400
 DIM = [31, 29, 31, 30, 31, 30, 31, 31, 30, 31, 30, 31]
 
 
